@@ -3,6 +3,8 @@ import AJ.Model.Graph
 import AJ.Model.Surgery
 import AJ.Model.Build
 import AJ.Model.Dot
+import AJ.Model.DotLex
+import AJ.Model.DotParse
 import AJ.Spec
 import AJ.Model.Run
 import AJ.Model.Full
